@@ -32,24 +32,32 @@ def run(tier, seed):
     work = vlib.scratch("c07-")
     maxlen, variants, shards = (2, 1, 8) if tier == "quick" else (3, 2, 14)
     ep = os.path.join(work, "paths.ndjson")
-    r = vlib.run_tlc('Paths', dict(constants=dict(MaxLen=maxlen, GuardAllFields=True, BeginByKey=False), invariants=['Confined'], action_constraint='Emit'),
+    r = vlib.run_tlc('Paths', dict(constants=dict(MaxLen=maxlen, GuardAllFields=True, BeginByKey=False, Shape='"all"'), invariants=['Confined'], action_constraint='Emit'),
                      workers=8, edges_path=ep, timeout=900)
     if r['violated']:
         raise vlib.HarnessTrouble("Paths.tla: the modelled guards do not confine:\n" + r['violation_text'][:1500])
-    rn = vlib.run_tlc('Paths', dict(constants=dict(MaxLen=2, GuardAllFields=False, BeginByKey=False), invariants=['Confined']), workers=4, want_edges=False, expect_violation=True)
+    rn = vlib.run_tlc('Paths', dict(constants=dict(MaxLen=2, GuardAllFields=False, BeginByKey=False, Shape='"all"'), invariants=['Confined']), workers=4, want_edges=False, expect_violation=True)
     if not rn['violated']:
         raise vlib.HarnessTrouble("negative control (only FileBegin validated) not refuted")
-    rk = vlib.run_tlc('Paths', dict(constants=dict(MaxLen=2, GuardAllFields=True, BeginByKey=True), invariants=['Confined']), workers=4, want_edges=False, expect_violation=True)
+    rk = vlib.run_tlc('Paths', dict(constants=dict(MaxLen=2, GuardAllFields=True, BeginByKey=True, Shape='"all"'), invariants=['Confined']), workers=4, want_edges=False, expect_violation=True)
     if not rk['violated']:
         raise vlib.HarnessTrouble("negative control (FileBegin matched to its item by key, path from the wire) not refuted")
     res = vlib.run_vh_sharded(['paths-jail', '-edges', ep, '-variants', str(variants)], shards, timeout=2400)
     if tier == "quick":
-        # plus every 6th case of the 3-segment space
+        # plus every 6th case of the 3-segment space, and all of its cases that climb two levels after a harmless first segment
         ep3 = os.path.join(work, "paths3.ndjson")
-        r3 = vlib.run_tlc('Paths', dict(constants=dict(MaxLen=3, GuardAllFields=True, BeginByKey=False), invariants=['Confined'], action_constraint='Emit'),
+        r3 = vlib.run_tlc('Paths', dict(constants=dict(MaxLen=3, GuardAllFields=True, BeginByKey=False, Shape='"all"'), invariants=['Confined'], action_constraint='Emit'),
                           workers=8, edges_path=ep3, timeout=900)
-        res3 = vlib.run_vh_sharded(['paths-jail', '-edges', ep3, '-sample', '6'], shards, timeout=2400)
+        res3 = vlib.run_vh_sharded(['paths-jail', '-edges', ep3, '-sample', '6', '-deep'], shards, timeout=2400)
         res = vlib.merge_results([res, res3])
+    # longer paths of one shape: a harmless first segment (a name, "a..b", "...", a padded ".."), two or three "..", a name
+    epd = os.path.join(work, "paths_decoy.ndjson")
+    rd = vlib.run_tlc('Paths', dict(constants=dict(MaxLen=5, GuardAllFields=True, BeginByKey=False, Shape='"decoy"'), invariants=['Confined'], action_constraint='Emit'),
+                      workers=4, edges_path=epd, timeout=600)
+    if rd['violated']:
+        raise vlib.HarnessTrouble("Paths.tla (decoy shape): the modelled guards do not confine:\n" + rd['violation_text'][:1500])
+    resd = vlib.run_vh_sharded(['paths-jail', '-edges', epd, '-variants', '3'], shards, timeout=2400)
+    res = vlib.merge_results([res, resd])
     for viol in res['violations']:
         v.violation(viol['sig'], viol.get('replay'))
     # the application level: hostile root names in the signaling offer against the real `thru join` in a jail
